@@ -257,13 +257,37 @@ def normalise_test(test, polarity=True):
     return test, polarity
 
 
+def _terminates(block):
+    if not block:
+        return False
+    last = block[-1]
+    if isinstance(last, (ast.Return, ast.Raise)):
+        return True
+    if isinstance(last, ast.If):
+        return _terminates(last.body) and _terminates(last.orelse)
+    return False
+
+
 def branch_conditions(node, stop):
     """conditions that hold at `node`: [(normalised test, polarity)] for every enclosing if (innermost first); works for
     df.effective_return stand-ins through their `_origin`"""
     node = getattr(node, "_origin", node)
     out = []
     child, p = node, getattr(node, "_parent", None)
-    while p is not None and p is not stop:
+    while p is not None:
+        # an earlier sibling `if t: ... return` (no fall-through) means t is false here -- the early-return layout of an if/else
+        for f in ("body", "orelse", "finalbody"):
+            blk = getattr(p, f, None)
+            if isinstance(blk, list) and any(x is child for x in blk):
+                for prev in blk[:next(i for i, x in enumerate(blk) if x is child)]:
+                    if isinstance(prev, ast.If):
+                        tb, te = _terminates(prev.body), _terminates(prev.orelse)
+                        if tb and not te:
+                            out.append(normalise_test(prev.test, False))
+                        elif te and not tb:
+                            out.append(normalise_test(prev.test, True))
+        if p is stop:
+            break
         if isinstance(p, ast.If):
             in_body = any(x is child for x in p.body)
             in_else = any(x is child for x in p.orelse)
@@ -285,3 +309,21 @@ def resolve_value(fnode, e, depth=0):
         if len(asg) == 1 and len(plain) == 1:
             return resolve_value(fnode, plain[0], depth + 1)
     return e
+
+
+def resolve_at(fnode, e, line=None, depth=0):
+    """like resolve_value, but in program order: a name read at `line` has the value of its last plain function-level binding above
+    that line (`init = tol; tol = tol * n + tol` -- `init` is the parameter, a later read of `tol` the product); a name with no binding
+    above is returned as it is (a parameter, or a closure variable)"""
+    if not isinstance(e, ast.Name) or depth > 6:
+        return e
+    line = getattr(e, "lineno", 0) if line is None else line
+    best = None
+    for v, path, st in assignments(fnode, into_nested=False).get(e.id, []):
+        if path is not None or isinstance(v, ast.AugAssign) or getattr(st, "_parent", None) is not fnode:
+            continue
+        if st.lineno < line and (best is None or st.lineno > best[1]):
+            best = (v, st.lineno)
+    if best is None:
+        return e
+    return resolve_at(fnode, best[0], best[1], depth + 1) if isinstance(best[0], ast.Name) else best[0]
